@@ -36,16 +36,19 @@ MANIFEST = dict(
          'all inputs: no/wrong prefix, every total length other than |prefix|+64 resp. |prefix|+k, what is accepted under one output prefix is '
          'rejected under every other (other id, other start byte, RAW vs prefixed in both directions; prefixes equal iff same start byte and id), '
          'appended bytes and cuts at either end of an accepted signature; LEGACY on Sign for all four schemes (= CRUNCHY frame over msg||00); '
-         '(10) modified message / other key in reduction form for ECDSA, Ed25519, PKCS1, PSS with no law assumed: if a signature produced by Sign '
-         'is accepted for another (key, message) then the primitive oracle accepted the genuine raw signature on a DIFFERENT (key, message '
-         'representative) pair, or the hash collided on two distinct strings; and the contrapositive form: if the oracle accepts the genuine raw '
-         'signature for no other pair (unforgeability stated for that signature) and the two strings do not collide, Verify returns an error. '
+         '(10) modified message / other key, with NO unforgeability law assumed (proofs/SigProofs3.v, repaired after the second audit): for ECDSA, '
+         'Ed25519, PKCS1, PSS and every oracle, Verify accepts a signature that Sign produced, under a FIXED other key and/or other message, iff '
+         'the primitive oracle accepts the genuine raw signature under that key for that message representative (a named event, no hardness '
+         'claim; rejects iff the oracle answers false); same key and other message: acceptance exhibits an oracle acceptance of the genuine raw '
+         'signature under the SAME key for another representative (the EUF-CMA shaped event) or a hash collision on two distinct strings; other '
+         'key: the literal clause "rejected under other keys" is REFUTED for ECDSA (C03_ecdsa_other_key_rejected_refuted): under the public-key '
+         'recovery law, which real ECDSA satisfies, the genuine signature is accepted for any message under the key recovered from it. '
          'The models are tied to the code by running the extracted model (OCaml, stdlib oracle for hash/ECDSA/Ed25519/RSA) and tink-go on the same '
          'cases: fresh Tink signatures for every curve x hash x encoding x variant, Ed25519, RSA 2048/3072 x SHA256/384/512 x PKCS1/PSS salt '
          'lengths through four API levels, and a mutation / re-encoding stream (non-minimal INTEGER, leading 00/ff, long-form and indefinite '
          'lengths, trailing bytes, negative, zero, r+n, n-s, swapped, wrong width, prefix edits, other key, other variant/hash/salt, modified '
          'message, truncation, bit flips, random strings; RSA len-1 / len+1 front and back, PKCS1 and PSS genuine signatures with a leading '
-         'zero byte presented zero-stripped) with exact accept/reject prediction -- the extracted std_pkcs1 / std_pss decide the length while the '
+         'zero byte presented zero-stripped; the ECDSA key recovered from a fresh signature, which must be ACCEPTED) with exact accept/reject prediction -- the extracted std_pkcs1 / std_pss decide the length while the '
          'oracle answers a length-agnostic core (signature read as an integer); plus a direct oracle (no model) comparing tink-go '
          'with a stdlib-only strict verifier, checking own signatures, stdlib-equality of deterministic signatures and rejection of mutants.',
     note='Trusted: Coq kernel, ExtrOcamlBasic extraction + OCaml glue, the Go harness and the stdlib oracle (Go standard library taken as the '
@@ -53,8 +56,11 @@ MANIFEST = dict(
          'crypto/rsa reads salt length 0 as auto). The models are hand-written: the tie is the correspondence on the explored cases, not a '
          'translation. Cryptographic unforgeability is not a theorem: "modified signatures are rejected" is proved in the set-theoretic form '
          '(accepted iff it is the unique encoding of a pair the standard verification accepts), "modified message / other key rejected" as a '
-         'reduction to an oracle forgery or hash collision (and as rejection under a per-signature no-forgery hypothesis; a universally '
-         'quantified unforgeability law would be unsatisfiable for fixed-size signatures and is deliberately not assumed), both exercised on mutants. '
+         'named oracle event (iff) and, for the same key, as a reduction to an oracle forgery or hash collision; no no-forgery law is assumed '
+         '(such a law is false of every real primitive: ECDSA key recovery and digest truncation, RSA key selection with a free exponent, counting). '
+         '"Rejected under other keys" therefore holds for independently generated keys only up to the primitive, and is FALSE for keys computed '
+         'from the signature (ECDSA recovery): the harness builds p = r^-1 (s R - z G) with crypto/elliptic on P-256/384/521 for the same and for '
+         'another message and tink-go, the model and the independent verifier all accept -- a property of ECDSA, not a defect of tink-go. '
          'The RSA length rule lives in crypto/rsa, not in tink-go: std_pkcs1 / std_pss transcribe that one comparison. Multi-key keysets are C05. '
          'KNOWN FINDING: RSA-SSA-PSS keys with SaltLengthBytes = 0 do not bind the salt length (0 = PSSSaltLengthAuto in crypto/rsa): Sign emits a '
          'maximal salt that a strict sLen=0 verifier rejects, Verify accepts any salt length; listed in known_findings.json.',
